@@ -47,9 +47,10 @@ token (`int(_, 8)` in Python, `u32::from_str_radix(_, 8)` in Rust).  Every itera
 least two bytes, so `fuel = text.length` always suffices (the fuel-exhausted branch is unreachable
 from `parseTreePy`/`parseTreeRs`). -/
 def parseTreeAux (pm : Bytes → Option Int) (shaLen : Nat) : Nat → Bytes → Except Err (List Entry)
-  | _, [] => .ok []
-  | 0, _ :: _ => .error .other
+  | 0, text => if text.isEmpty then .ok [] else .error .other
   | f + 1, text =>
+    if text.isEmpty then .ok []
+    else
     match splitFirst 32 text with
     | none => .error .format                      -- text.index(b" ") fails / "Missing terminator for mode"
     | some (modeText, afterSp) =>
@@ -111,14 +112,18 @@ def sortedTreeItemsNameOrder (es : List Entry) : List Entry :=
 
 def rsIsDir (m : Int) : Bool := (m.toNat / 4096) % 16 * 4096 == OGen.rsSIFDIR
 
+/-- `u8::cmp`. -/
+def cmpByte (u v : UInt8) : Ordering := if u < v then .lt else if v < u then .gt else .eq
+
+/-- The virtual byte after the end of a name: `/` for a directory, NUL otherwise. -/
+def rsTerm (m : Int) : UInt8 := if rsIsDir m then OGen.rsDirTerm else OGen.rsFileTerm
+
 /-- Rust `cmp_with_suffix` (git's `base_name_compare`): compare the common prefix, then one more
 byte where a name that has ended contributes `/` if it is a directory and NUL otherwise. -/
 def cmpWithSuffix : (ma : Int) → Bytes → (mb : Int) → Bytes → Ordering
-  | ma, [], mb, [] =>
-    compare (if rsIsDir ma then OGen.rsDirTerm else OGen.rsFileTerm)
-            (if rsIsDir mb then OGen.rsDirTerm else OGen.rsFileTerm)
-  | ma, [], _, b :: _ => compare (if rsIsDir ma then OGen.rsDirTerm else OGen.rsFileTerm) b
-  | _, a :: _, mb, [] => compare a (if rsIsDir mb then OGen.rsDirTerm else OGen.rsFileTerm)
+  | ma, [], mb, [] => cmpByte (rsTerm ma) (rsTerm mb)
+  | ma, [], _, b :: _ => cmpByte (rsTerm ma) b
+  | _, a :: _, mb, [] => cmpByte a (rsTerm mb)
   | ma, a :: as, mb, b :: bs => if a < b then .lt else if b < a then .gt else cmpWithSuffix ma as mb bs
 
 def rsLe (a b : Entry) : Bool := cmpWithSuffix a.mode a.name b.mode b.name != .gt
